@@ -3,6 +3,6 @@ pub mod genmods {
     include!(concat!(env!("OUT_DIR"), "/genmods.rs"));
 }
 pub mod glue;
-pub mod io;
+pub use simio::io;
 pub mod netglue;
-pub mod val;
+pub use simio::val;
